@@ -116,10 +116,17 @@ func (in *Inst) PointsBattery(o *Obs, m *Model, universe []int) {
 				}
 				got[idx] = d
 			}
-			if len(got) != len(m.Docs) {
-				o.Fail("select-all-wrong-set", "select-all returned points %v, model has %v", keysOf(got), m.SortedIds())
+			// the model may hold points outside the universe (bulk batches): the query asked for the universe only
+			wantDocs := map[int]Doc{}
+			for _, id := range universe {
+				if d, ok := m.Docs[id]; ok {
+					wantDocs[id] = d
+				}
+			}
+			if len(got) != len(wantDocs) {
+				o.Fail("select-all-wrong-set", "select-all returned points %v, model has %v", keysOf(got), keysOf(wantDocs))
 			} else {
-				for id, want := range m.Docs {
+				for id, want := range wantDocs {
 					if g, ok := got[id]; !ok || !DocEqual(g, want) {
 						o.Fail("select-all-wrong-document", "point %d: got %s, model has %s", id, DocString(g), DocString(want))
 					}
